@@ -187,7 +187,7 @@ def run(ctx, prog, only_grad=False):
              'the name map assigns (source_X->eval_q_X, exact_X->eval_exact_X, grad_X->eval_g_X + 8 statistical names), same overload')
     if not only_grad:
         ctx.rule('C15.R1', "every virtual eval_* of manufactured_solution<Scalar> only inserts string literals (one containing 'MASA ERROR') into std::cout and returns the literal -1.33")
-        ctx.rule('C15.R3', 'in every catalogue class a method named like a base virtual, or named eval_*, overrides a base virtual (clang overridden_methods), unless listed in tables/exceptions.json')
+        ctx.rule('C15.R3', 'in every catalogue class a method that has the name of a base virtual overrides a base virtual (clang overridden_methods), unless listed in tables/exceptions.json')
         ctx.rule('C15.R4', 'every evaluator override takes exactly the class\'s number of coordinates (dimension, plus time for the classes of tables/temporal.json) unless listed in tables/exceptions.json extra_arity')
         ctx.rule('C15.R5', 'every masa_eval_* template declared in masa.h is defined in masa_core.cpp and explicitly instantiated for double and long double')
         ctx.rule('C15.PAIRS', 'for every (solution, API overload, scalar): the final overrider of the forwarded slot is either a catalogue-class override or a base stub of shape R1')
@@ -241,8 +241,8 @@ def run(ctx, prog, only_grad=False):
                 for m in rec['methods']:
                     if m.get('ctor') or m.get('dtor'):
                         continue
-                    if not (m['n'].startswith('eval_') or m['n'] in base_names):
-                        continue
+                    if m['n'] not in base_names:
+                        continue    # a method with a name of its own (private helper eval_fields, eval_flow...) is not reachable through the API
                     key = '%s::%s|%s' % (cat.short(r), m['n'], m['sig'].replace(scalar, 'S'))
                     if m['overrides']:
                         n_over += 1
